@@ -90,6 +90,10 @@ TEMPLATES = [
     "from . import x", "from .. import y", "from Reduino.transpile import parser", "import os, sys\nx = {H}", "from os import system\nsystem({H})", "from Reduino.Actuators import Led as L\nq = L(3)",
     "import Reduino.Actuators as A\nq = A.Led(3)", "from Reduino.Sensors.Ultrasonic import Ultrasonic\nu3 = Ultrasonic(7, 8)", "from Reduino.Communication.SerialMonitor import SerialMonitor",
     "from Reduino.Actuators.DCMotor import DCMotor", "from Reduino.toolchain.pio import write_project", "from json import loads\nx = loads({H})", "import antigravity", "from Reduino.Actuators.Nope import Zip",
+    # the hostile text inside a string literal (quoted annotations, names of things, texts): a string is data, never evaluated
+    "def qa(a: \"{H}\"):\n    return a\ny = qa(1)", "def qr(a) -> \"{H}\":\n    return a\ny = qr(1)", "x: \"{H}\" = 1", "def qb(a: \"int\", b: \"{H}\" = 2):\n    return a",
+    "mon.write(\"{H}\")", "lcd.line(0, \"{H}\")", "bz.melody(\"{H}\")", "us = Ultrasonic(7, 8, sensor=\"{H}\")", "lcd.animate(\"{H}\", 0, \"{H}\")", "target(\"{H}\")", "s = \"{H}\"\nmon.write(s)",
+    "lcd.line(0, 'x', align=\"{H}\")", "lcd.progress(0, 1, 2, style=\"{H}\")", "pin_mode(\"{H}\", 1)", "pot = Potentiometer(\"{H}\")",
     "x = abs({H})", "x = max({H}, {H})", "x = int({H})", "x = str({H})", "x = h({H})", "a, b, c = 1, {H}", "mon.write(value={H})", "x = y = {H}",
 ]
 PRELUDE = ("from Reduino.Actuators import Led, RGBLed, Servo, DCMotor, Buzzer\nfrom Reduino.Communication import SerialMonitor\nfrom Reduino.Displays import LCD\n"
